@@ -2,7 +2,8 @@
 """imports the deliverables of a file-targeted seeding job (/tmp/wt4-<job>/seeded/m*) into out/seeded_raw/<property>/m<next>"""
 import json, os, shutil, sys, re
 job = sys.argv[1]
-src = f'/tmp/wt4-{job}/seeded'
+rnd = sys.argv[2] if len(sys.argv) > 2 else '4'
+src = f'/tmp/wt{rnd}-{job}/seeded'
 for mk in sorted(os.listdir(src)):
     d = os.path.join(src, mk)
     meta = json.load(open(os.path.join(d, 'meta.json')))
@@ -23,7 +24,7 @@ for mk in sorted(os.listdir(src)):
             if nf != f:
                 os.rename(os.path.join(dst, f), os.path.join(dst, nf))
     meta['property'] = pid
-    meta['origin'] = f'round 4 job {job} {mk}'
+    meta['origin'] = f'round {rnd} job {job} {mk}'
     if 'demo_run' in meta:
         meta['demo_run'] = re.sub(r'zz_demo_m\d+_test', f'zz_demo_m{n}_test', meta['demo_run'])
     json.dump(meta, open(os.path.join(dst, 'meta.json'), 'w'), indent=1)
